@@ -101,6 +101,35 @@ Theorem C16_par_own_uri : forall g d st r cid st' o u,
 Proof. exact dru_via. Qed.
 Print Assumptions C16_par_own_uri.
 
+(* C16_par_exact_spelling — the store is keyed by the exact string that was issued: an authorization request whose
+   request_uri is not, character for character, the request_uri of a stored pushed request (another letter case of
+   scheme / NID / hex digits, surrounding whitespace, a fragment or query, percent-escapes, ...) leaves the store
+   as it is and redeems nothing (via = None: no stored request was handed out) *)
+Theorem C16_par_exact_spelling : forall g d st outer w st' o via,
+  authz_parse g d st outer w = (st', o, via) ->
+  (forall ru, assoc k_request_uri outer = Some (PS_ ru) -> ~ In ru (db_keys st)) ->
+  st' = st /\ via = None.
+Proof. exact authz_unknown_spelling. Qed.
+Print Assumptions C16_par_exact_spelling.
+
+(* C16_par_redemptions_bounded — over every history, whatever request_uri strings the authorization requests carry:
+   each successful redemption presented a request_uri that was issued to a push, and there are at most as many
+   successful redemptions as pushes *)
+Theorem C16_par_redemptions_bounded : forall g d t0 ops, NoDup (pushed_urns ops) ->
+  (forall u, In u (redeemed (run g d (init t0) ops)) -> In u (pushed_urns ops)) /\
+  (List.length (redeemed (run g d (init t0) ops)) <= List.length (pushed_urns ops))%nat.
+Proof. exact par_count. Qed.
+Print Assumptions C16_par_redemptions_bounded.
+
+(* C16_par_one_push_one_redemption — one push, any number of authorization requests before and after it with
+   arbitrary request_uri strings: at most one of them redeems it, and that one presented the issued string *)
+Theorem C16_par_one_push_one_redemption : forall g d t0 pre post pusher body w u,
+  pushed_urns pre = [] -> pushed_urns post = [] ->
+  (List.length (redeemed (run g d (init t0) (pre ++ OPush pusher body w u :: post))) <= 1)%nat /\
+  (forall x, In x (redeemed (run g d (init t0) (pre ++ OPush pusher body w u :: post))) -> x = u).
+Proof. exact par_one_push. Qed.
+Print Assumptions C16_par_one_push_one_redemption.
+
 (* C16_unforgeable — symbolic (Dolev-Yao): if key k0 is never published, an object accepted under k0 carries the
    signature term Sig k0 (alg, claims), and whoever can derive that term found it inside something an honest
    party published: only objects the key holder signed, with exactly this algorithm and these claims, verify *)
@@ -145,4 +174,17 @@ Example C16_refuses :
        [OPush s_c1 ex_by_value (Some (wgen s_hs256 (ex_claims s_c1 s_r1) 2)) ex_urn; OTick 11;
         OAuthz (ex_by_uri ex_urn) None]))
   = [(false, true)].
+Proof. vm_compute. repeat split; reflexivity. Qed.
+
+(* pushed once under ex_urn_a: every other spelling is refused and redeems nothing, before and after the one
+   redemption through the issued string; the hypotheses of C16_par_one_push_one_redemption hold of this history *)
+Example C16_spellings :
+  let ops := OPush s_c1 ex_by_value (Some (wgen s_hs256 (ex_claims s_c1 s_r1) 2)) ex_urn_a
+             :: (List.map (fun s => OAuthz (ex_by_uri s) None) ex_spellings
+                 ++ [OAuthz (ex_by_uri ex_urn_a) None]
+                 ++ List.map (fun s => OAuthz (ex_by_uri s) None) ex_spellings)%list in
+  List.map (fun x => (took_effect (fst x), refused (fst x), snd x)) (authz_results (run (ex_cfg true RAbsent) [] (init 0) ops))
+  = (List.repeat (false, true, None) 9 ++ [(true, false, Some ex_urn_a)] ++ List.repeat (false, true, None) 9)%list
+  /\ redeemed (run (ex_cfg true RAbsent) [] (init 0) ops) = [ex_urn_a]
+  /\ pushed_urns (List.tl ops) = [].
 Proof. vm_compute. repeat split; reflexivity. Qed.
